@@ -10,13 +10,15 @@ variable {κ1 κ2 : Type} {C1 : CpOps κ1} {C2 : CpOps κ2}
 /-- the transaction-level obligations around the frame loop: validation, pre-execution and post-execution are the same
 functions on both sides (they never open a subroutine) and have to respect `R` on the empty checkpoint stack -/
 structure TxSim (C1 : CpOps κ1) (C2 : CpOps κ2) (e : Evm.Env) (spec : Nat) extends FrameSim C1 C2 (e.toCfg spec) where
-  pre : ∀ w1 w2 o1, R [] w1 [] w2 → preverify w1 e spec = .ok o1 →
+  /-- the relation before pre-execution (it may say more than `R [] · [] ·`: nothing has been executed yet) -/
+  R0 : World → World → Prop
+  pre : ∀ w1 w2 o1, R0 w1 w2 → preverify w1 e spec = .ok o1 →
     ∃ o2, preverify w2 e spec = .ok o2 ∧
       (match o1, o2 with
        | none, none => True
-       | some (w1', ig1, fg1), some (w2', ig2, fg2) => ig1 = ig2 ∧ fg1 = fg2 ∧ R [] w1' [] w2'
+       | some (w1', ig1, fg1), some (w2', ig2, fg2) => ig1 = ig2 ∧ fg1 = fg2 ∧ R0 w1' w2'
        | _, _ => False)
-  load : ∀ w1 w2, R [] w1 [] w2 → R [] (loadAccounts e spec w1) [] (loadAccounts e spec w2)
+  load : ∀ w1 w2, R0 w1 w2 → R [] (loadAccounts e spec w1) [] (loadAccounts e spec w2)
   deduct : ∀ w1 w2 w1', R [] w1 [] w2 → deductCaller e spec w1 = .ok w1' →
     ∃ w2', deductCaller e spec w2 = .ok w2' ∧ R [] w1' [] w2'
   auth : ∀ w1 w2 w1' n, R [] w1 [] w2 → applyAuthList e spec w1 = .ok (w1', n) →
@@ -25,7 +27,7 @@ structure TxSim (C1 : CpOps κ1) (C2 : CpOps κ2) (e : Evm.Env) (spec : Nat) ext
     ∃ w2', finish e spec fg rf ic res w2 = .ok (r, w2') ∧ R [] w1' [] w2'
 
 theorem prepare_sim {e : Evm.Env} {spec : Nat} (T : TxSim C1 C2 e spec) (ig : Nat) (w1 w2 : World)
-    (hR : T.R [] w1 [] w2) (x1 : FrameOrResult κ1 × World × Bool × Nat) (h : prepare C1 e spec ig w1 = .ok x1) :
+    (hR : T.R0 w1 w2) (x1 : FrameOrResult κ1 × World × Bool × Nat) (h : prepare C1 e spec ig w1 = .ok x1) :
     ∃ x2, prepare C2 e spec ig w2 = .ok x2 ∧ x1.2.2 = x2.2.2 ∧ ForRel T.R [] [] (x1.1, x1.2.1) (x2.1, x2.2.1) := by
   unfold prepare at h ⊢
   simp only [bind, Except.bind] at h ⊢
@@ -103,7 +105,7 @@ theorem runFirst_sim {e : Evm.Env} {spec : Nat} (T : TxSim C1 C2 e spec) (fuel :
       exact ⟨w2, ⟨hx.1.symm, rfl⟩, hx.2⟩
 
 theorem execute_sim {e : Evm.Env} {spec : Nat} (T : TxSim C1 C2 e spec) (fuel ig fg : Nat) (w1 w2 : World)
-    (hR : T.R [] w1 [] w2) (r : TxResult) (w1' : World) (h : execute C1 fuel e spec ig fg w1 = .ok (r, w1')) :
+    (hR : T.R0 w1 w2) (r : TxResult) (w1' : World) (h : execute C1 fuel e spec ig fg w1 = .ok (r, w1')) :
     ∃ w2', execute C2 fuel e spec ig fg w2 = .ok (r, w2') ∧ T.R [] w1' [] w2' := by
   unfold execute at h ⊢
   simp only [bind, Except.bind] at h ⊢
@@ -138,7 +140,7 @@ def OutRel (Rw : World → World → Prop) : Outcome → World → World → Pro
 /-- **the lifting**: a completed transaction of the first machine is a completed transaction of the second with the same
 outcome (rejected, or executed with the same `TxResult`) and related final worlds -/
 theorem transactWith_sim {e : Evm.Env} {spec : Nat} (T : TxSim C1 C2 e (GasCalc.canon spec)) (fuel : Nat)
-    (w1 w2 : World) (hR : T.R [] w1 [] w2) (o : Outcome) (w1' : World)
+    (w1 w2 : World) (hR : T.R0 w1 w2) (o : Outcome) (w1' : World)
     (h : transactWith C1 fuel w1 e spec = .ok (o, w1')) :
     ∃ w2', transactWith C2 fuel w2 e spec = .ok (o, w2') ∧ OutRel (fun a b => T.R [] a [] b) o w1' w2' := by
   unfold transactWith at h ⊢
